@@ -13,17 +13,23 @@ import (
 type Log struct {
 	comp  string
 	Yield bool
+	Hook  func(level, comp, msg string)
 }
 
-func NewLog(yield bool) logutil.Log { return &Log{Yield: yield} }
+func NewLog(yield bool) *Log { return &Log{Yield: yield} }
 
-func (l *Log) WithComponent(c string) logutil.Log { return &Log{comp: l.comp + "/" + c, Yield: l.Yield} }
+func (l *Log) WithComponent(c string) logutil.Log {
+	return &Log{comp: l.comp + "/" + c, Yield: l.Yield, Hook: l.Hook}
+}
 
 func (l *Log) out(level, format string, args []interface{}) {
 	if l.Yield {
 		detsim.Yield("log")
 	}
 	if level != "debug" {
+		if l.Hook != nil {
+			l.Hook(level, l.comp, fmt.Sprintf(format, args...))
+		}
 		detsim.Logf("LOG %s %s: %s", level, l.comp, fmt.Sprintf(format, args...))
 		detsim.Count("log:" + level)
 	}
